@@ -2,22 +2,16 @@
 From V Require Import lib.Base lib.Utf8 model.Html model.HtmlUnescape model.UrlProc model.TContext model.TSanitize
      model.TSanitizers spec.Rfc3986 spec.WhatwgUrl spec.HtmlSpec spec.UrlPrefixSpec proofs.UrlPrefixFacts props.C14.
 
-(* D16: <a href="/foo&quest;x={{.}}">: the browser decodes the prefix to /foo?x= (query part), the
-   engine looks at the undecoded text, finds neither '?' nor '#' and only normalises *)
+(* D16 (repaired: fix: decide between query escaping and normalization on the decoded URL prefix):
+   <a href="/foo&quest;x={{.}}">: the browser decodes the prefix to /foo?x= (query part); the engine
+   used to look at the undecoded text, find neither '?' nor '#' and only normalise.  What is kept here
+   is the witness that the raw and the decoded prefix disagree, that the repaired engine now picks
+   the query escaper for it, and what the old choice meant for the emitted URL. *)
 Definition d16_ctx : context := mkctx StAttr DDoubleQuote (B "a") [] (B "href") (B "/foo&quest;x=") false [] None [] [].
 
-Lemma C14_chain_choice_refuted : ~ C14_chain_choice_full_statement.
-Proof.
-  intros H.
-  specialize (H d16_ctx [N_normalizeURL; N_sanitizeHTML] SC_TRUOrURL).
-  destruct H as [_ [(E & _)|(_ & _ & E)]]; try (vm_compute; reflexivity); try (intro X; discriminate X).
-  - vm_compute in E. discriminate E.
-  - vm_compute in E. discriminate E.
-Qed.
-
-(* what it means for the emitted URL: '&', '=' and '#' of the data survive *)
 Lemma D16_witness :
   finding_D16 (B "/foo&quest;x=") = true /\
+  sanitizers_for_attr_value d16_ctx = Some [N_queryEscapeURL; N_sanitizeHTML] /\
   apply_chain [N_normalizeURL; N_sanitizeHTML] (VStr (B "1&admin=1#frag")) = Some (B "1&amp;admin=1#frag") /\
   html_unescape (B "/foo&quest;x=1&amp;admin=1#frag") = B "/foo?x=1&admin=1#frag".
 Proof. repeat split; vm_compute; reflexivity. Qed.
